@@ -438,3 +438,5 @@ def run(ctx) -> None:
     from . import jsonrules
     ctx.rules_run.append("J8")
     jsonrules.rule_J8(ctx)      # a number without a member keeps its number in the dict / JSON form (the name of such a value is None)
+    ctx.rules_run.append("J9")
+    jsonrules.rule_J9(ctx)
